@@ -176,7 +176,9 @@ def run(tier, seed, replay):
     lx = run_native("robust_harness", {"op": "lexer", "maxlen": 4 if thorough else 3}, timeout=3000)
     chk.add_bounded("Lexer.__iter__", "every string is turned into tokens and lexical diagnostics (no exception)",
                     "all strings of length 1..%d over a 20-character alphabet; runs of 50..3000 unmatched characters; "
-                    "long char literal / splice runs" % (4 if thorough else 3), lx["cases"], [], nontrivial=lx["cases"],
+                    "long char literal / splice runs; every proper prefix of 42 lexemes of every kind (escapes, "
+                    "prefixes, comments, constants, operators, alternative spellings) x 3 contexts"
+                    % (4 if thorough else 3), lx["cases"], [], nontrivial=lx["cases"],
                     samples=list(lx["exceptions"].items())[:2], time_s=time.time() - t0)
     for k, text in sorted(lx["exceptions"].items()):
         exc = k.split(":")[0]
